@@ -184,6 +184,19 @@ def freerqoutdata (w : World) (si i : Nat) : World :=
       | none => w
     updSrv w si fun s => { s with slots := s.slots.set i {} }
 
+/-- the part of `removeclientrq` that cancels the in-flight copy: if the request is queued for a server and
+    that slot still points at it, the slot is released -/
+def cancelOutstanding (w : World) (o : Nat) : World :=
+  match getRq w o with
+  | some r =>
+    (match r.to with
+     | some si =>
+       (match getSrv w si with
+        | some s => if (slotOf s r.newid).rq = some o then freerqoutdata w si r.newid else w
+        | none => w)
+     | none => w)
+  | none => w
+
 /-- `removeclientrq(client, i)` -/
 def removeclientrq (w : World) (ci i : Nat) : World :=
   match getCli w ci with
@@ -192,15 +205,7 @@ def removeclientrq (w : World) (ci i : Nat) : World :=
     match c.cache.getD i none with
     | none => w
     | some o =>
-      let w := match getRq w o with
-        | some r =>
-          (match r.to with
-           | some si =>
-             (match getSrv w si with
-              | some s => if (slotOf s r.newid).rq = some o then freerqoutdata w si r.newid else w
-              | none => w)
-           | none => w)
-        | none => w
+      let w := cancelOutstanding w o
       let w := updCli w ci fun c => { c with cache := c.cache.set i none }
       freerq w o
 
